@@ -128,6 +128,10 @@ pub fn configs(prop: &str, thorough: bool) -> Vec<SimConfig> {
                 ("ws-vs-http", vec!["ws://a:8080", "http://a:8080"]),
                 ("wss-vs-http", vec!["wss://a:8443", "http://a:8443"]),
                 ("wss-vs-https", vec!["wss://a", "https://a"]),
+                // an explicit port that is ANOTHER scheme's default is not this scheme's default
+                ("http-443-vs-default", vec!["http://a:443", "http://a"]),
+                ("https-80-vs-default", vec!["https://a:80", "https://a"]),
+                ("ws-443-vs-default", vec!["ws://a:443", "ws://a"]),
             ] {
                 let mut c = full(&format!("n2-{name}"), 2, true);
                 c.origins = origins(&os);
@@ -135,7 +139,7 @@ pub fn configs(prop: &str, thorough: bool) -> Vec<SimConfig> {
                 // counts); a key collision shows within a few events. Quick tier: two menus to fixpoint, the
                 // others to depth 12; thorough: all to fixpoint.
                 if !thorough && name != "scheme" && name != "host" {
-                    c.max_depth = Some(12);
+                    c.max_depth = Some(if name.ends_with("-vs-default") { 9 } else { 12 });
                 }
                 v.push(c.clone());
                 if thorough || name == "scheme" {
